@@ -1,37 +1,94 @@
 import DimodModel.Bqm
+import DimodModel.Wire
+open Wire
 
-def parseLabel? (s : String) : Option Label :=
-  if s.startsWith "i:" then (s.drop 2).toString.toInt?.map Label.int
-  else if s.startsWith "s:" then some (Label.str (s.drop 2).toString)
-  else none
+/-! Line-protocol driver for the BQM model (C04 / C20).
+    line   ::= "new" VT | via op args…           via ::= "d" | "vs" | "vb"  (direct, through a SPIN view, through a BINARY view)
+    answer ::= ("ok"|"err") " " state            state ::= VT;labels;linear;u:v:bias…;offset   (lower triangle, index order)
+    "read" via  → the reads of that view as coded: linear;u:v:bias…;offset -/
 
-def parseOptLabel? (s : String) : Option (Option Label) :=
-  if s = "-" then some none else (parseLabel? s).map some
+namespace BqmDriver
 
-def parseRat? (s : String) : Option Rat :=
-  match s.splitOn "/" with
-  | [p] => p.toInt?.map (fun z => (z : Rat))
-  | [p, q] => match p.toInt?, q.toNat? with
-    | some z, some d => if d = 0 then none else some ((z : Rat) / (d : Rat))
-    | _, _ => none
-  | _ => none
+def showVT : VT → String | .spin => "SPIN" | .binary => "BINARY"
 
-def showRat (r : Rat) : String := if r.den = 1 then s!"{r.num}" else s!"{r.num}/{r.den}"
-
-def showLabel : Label → String
-  | .int z => s!"i:{z}"
-  | .str s => s!"s:{s}"
-  | .tup _ => "t:?"
+def showTriples (ts : List (Nat × Nat × Rat)) : String :=
+  String.intercalate "," (ts.map fun t => s!"{t.1}:{t.2.1}:{showRat t.2.2}")
 
 def showState (m : Bqm) : String :=
-  let vt := match m.vt with | .spin => "SPIN" | .binary => "BINARY"
   let labels := String.intercalate "," (m.labels.map showLabel)
   let lin := String.intercalate "," (m.lin.map showRat)
-  let quad := (List.range m.adj.length).flatMap fun u =>
-    ((m.adj.getD u []).filter (fun p => p.1 < u)).map fun p => s!"{u}:{p.1}:{showRat p.2}"
-  s!"{vt};{labels};{lin};{String.intercalate "," quad};{showRat m.off}"
+  s!"{showVT m.vt};{labels};{lin};{showTriples m.lowerTriples};{showRat m.off}"
+
+def showRead (m : Bqm) (tv : VT) : String :=
+  let lin := String.intercalate "," ((List.range m.lin.length).map fun i => showRat (m.vGetLinear tv i))
+  let q := m.lowerTriples.map fun t => (t.1, t.2.1, m.vQuadFactor tv * t.2.2)
+  s!"{showVT tv};{lin};{showTriples q};{showRat (m.vOffset tv)}"
 
 def vtOf? (s : String) : Option VT := if s = "SPIN" then some .spin else if s = "BINARY" then some .binary else none
+
+def via? (s : String) : Option Bqm.Via :=
+  match s with
+  | "d" => some .direct | "vs" => some (.view .spin) | "vb" => some (.view .binary) | _ => none
+
+def parseMapping (s : String) : Option (List (Label × Label)) :=
+  (csv s).mapM fun kv =>
+    match kv.splitOn "=" with
+    | [k, v] => do let k ← parseLabel? k; let v ← parseLabel? v; pure (k, v)
+    | _ => none
+
+def parseTriples (s : String) : Option (List (Nat × Nat × Rat)) :=
+  (csv s).mapM fun t =>
+    match t.splitOn ":" with
+    | [u, v, x] => do pure ((← u.toNat?), (← v.toNat?), (← parseRat? x))
+    | _ => none
+
+/-- a model literal `VT labels linear triples offset`, built through the model's own adders -/
+def parseModel (vt ls lin q off : String) : Option Bqm := do
+  let vt ← vtOf? vt
+  let ls ← (csv ls).mapM parseLabel?
+  let lin ← (csv lin).mapM parseRat?
+  let q ← parseTriples q
+  let off ← parseRat? off
+  if ls.length ≠ lin.length then none else
+  let m : Bqm := { vt, labels := ls, lin := lin, adj := ls.map fun _ => [], off := off }
+  pure (q.foldl (fun acc t => acc.addQ t.1 t.2.1 t.2.2) m)
+
+def parseOp (ws : List String) : Option Bqm.Op :=
+  match ws with
+  | ["al", l, b] => do pure (.addLinear (← parseOptLabel? l) (← parseRat? b))
+  | ["sl", l, b] => do pure (.setLinear (← parseOptLabel? l) (← parseRat? b))
+  | ["aq", u, v, b] => do pure (.addQuadratic (← parseOptLabel? u) (← parseOptLabel? v) (← parseRat? b))
+  | ["sq", u, v, b] => do pure (.setQuadratic (← parseOptLabel? u) (← parseOptLabel? v) (← parseRat? b))
+  | ["ri", u, v] => do pure (.removeInteraction (← parseLabel? u) (← parseLabel? v))
+  | ["rv", l] => do pure (.removeVariable (← parseOptLabel? l))
+  | ["av", l, b] => do pure (.addVariable (← parseOptLabel? l) (← parseRat? b))
+  | ["rs", k] => k.toInt?.map .resize
+  | ["sc", s] => (parseRat? s).map .scale
+  | ["of", s] => (parseRat? s).map .setOffset
+  | ["cv", vt] => (vtOf? vt).map .changeVartype
+  | ["fx", l, a] => do pure (.fixVariable (← parseLabel? l) (← parseRat? a))
+  | ["ct", u, v] => do pure (.contract (← parseLabel? u) (← parseLabel? v))
+  | ["fl", l] => (parseLabel? l).map .flip
+  | ["rl", mp] => (parseMapping mp).map .relabel
+  | ["rli"] => some .relabelInts
+  | ["cl"] => some .clear
+  | ["up", vt, ls, lin, q, off] => (parseModel vt ls lin q off).map .update
+  | ["alf", items] => do
+    let l ← (csv items).mapM fun it =>
+      match it.splitOn "=" with
+      | [l, b] => do pure ((← parseOptLabel? l), (← parseRat? b))
+      | _ => none
+    pure (.addLinearFrom l)
+  | ["aqf", items] => do
+    let l ← (csv items).mapM fun it =>
+      match it.splitOn "~" with
+      | [u, v, b] => do pure ((← parseOptLabel? u), (← parseOptLabel? v), (← parseRat? b))
+      | _ => none
+    pure (.addQuadraticFrom l)
+  | ["ala", xs] => ((csv xs).mapM parseRat?).map .addLinearFromArray
+  | ["aqd", k, xs] => do pure (.addQuadraticFromDense (← k.toNat?) (← (csv xs).mapM parseRat?))
+  | ["xx"] => some .malformed
+  | _ => none
 
 def reply (r : Bqm × Option ErrC) : Bqm × String :=
   match r.2 with
@@ -42,29 +99,15 @@ def step (m : Bqm) (line : String) : Bqm × String :=
   let bad := (m, "bad-op")
   match line.trimAscii.toString.splitOn " " with
   | ["new", vt] => match vtOf? vt with | some v => reply (Bqm.empty v, none) | none => bad
-  | ["al", l, b] => match parseLabel? l, parseRat? b with
-    | some l, some b => reply (m.addLinear l b, none) | _, _ => bad
-  | ["sl", l, b] => match parseLabel? l, parseRat? b with
-    | some l, some b => reply (m.setLinear l b, none) | _, _ => bad
-  | ["aq", u, v, b] => match parseLabel? u, parseLabel? v, parseRat? b with
-    | some u, some v, some b => reply (m.quadOp u v b false) | _, _, _ => bad
-  | ["sq", u, v, b] => match parseLabel? u, parseLabel? v, parseRat? b with
-    | some u, some v, some b => reply (m.quadOp u v b true) | _, _, _ => bad
-  | ["ri", u, v] => match parseLabel? u, parseLabel? v with
-    | some u, some v => reply (m.removeInteraction u v) | _, _ => bad
-  | ["rv", l] => match parseOptLabel? l with
-    | some l => reply (m.removeVariable l) | none => bad
-  | ["av", l, b] => match parseOptLabel? l, parseRat? b with
-    | some l, some b => reply (m.addVariable l b, none) | _, _ => bad
-  | ["rs", k] => match k.toInt? with | some k => reply (m.resize k) | none => bad
-  | ["sc", s] => match parseRat? s with | some s => reply (m.scale s, none) | none => bad
-  | ["of", s] => match parseRat? s with | some s => reply ({ m with off := s }, none) | none => bad
-  | ["cv", vt] => match vtOf? vt with | some v => reply (m.changeVartype v, none) | none => bad
-  | ["fx", l, a] => match parseLabel? l, parseRat? a with
-    | some l, some a => reply (m.fixVariable l a) | _, _ => bad
+  | ["load", vt, ls, lin, q, off] => match parseModel vt ls lin q off with | some m' => reply (m', none) | none => bad
+  | ["read", v] => match via? v with | some via => (m, "ok " ++ showRead m (via.tv m)) | none => bad
   | ["en", xs] =>
     let vals := (xs.splitOn ",").filterMap parseRat?
     (m, "ok " ++ showRat (m.energy vals))
+  | v :: rest =>
+    match via? v, parseOp rest with
+    | some via, some op => reply (m.step via op)
+    | _, _ => bad
   | _ => bad
 
 partial def loop (h : IO.FS.Stream) (m : Bqm) : IO Unit := do
@@ -74,4 +117,6 @@ partial def loop (h : IO.FS.Stream) (m : Bqm) : IO Unit := do
   IO.println out
   loop h m'
 
-def main : IO Unit := do loop (← IO.getStdin) (Bqm.empty .spin)
+end BqmDriver
+
+def main : IO Unit := do BqmDriver.loop (← IO.getStdin) (Bqm.empty .spin)
